@@ -14,6 +14,7 @@
          (hashes of the fx=false lines, then of the fx=true lines), and at the
          end a line "STATS ..." with counters and examples. *)
 open Model
+type string = String.t   (* Model defines Coq's string; keep OCaml's under its usual name *)
 
 let rec pos_of_int (n : int) : positive =
   if n = 1 then XH else if n land 1 = 1 then XI (pos_of_int (n lsr 1)) else XO (pos_of_int (n lsr 1))
@@ -132,8 +133,18 @@ let z_udec (v : z) : string = Printf.sprintf "%Lu" (i64_of_z v)
 let z_sdec (v : z) : string = Printf.sprintf "%Ld" (i64_of_z v)
 let z_big (v : z) : bool = match v with Z0 -> false | Zpos p -> pos_bits p > 63 | Zneg p -> pos_bits p > 63 && v <> Zneg (pos_of_i64 Int64.min_int)
 
-let tok2num ped st w tok = toktonum fval ferange f_of_z 0.0 (fun d -> d = 0.0) (fun d -> d < 0.0) f_trunc ped (nat_of_int st) w tok
-let scalar_of ped st w tok = set_scalar fval ferange f_of_z 0.0 (fun d -> d = 0.0) (fun d -> d < 0.0) f_trunc ped (nat_of_int st) w tok
+(* f_trunc of Literal.v is (uint64_t)d for an unsigned request and (int64_t)d for a signed one *)
+let f_trunc_i (d : float) : z =
+  if Float.is_nan d || Float.abs d >= 9223372036854775808.0 then (ub_marker := true; Z0) else f_trunc d
+let trunc_for w = match w with WSigned -> f_trunc_i | _ -> f_trunc
+(* which variant of the code (Literal.cfg): argv.(2) = four 0/1 digits uflow oflow zero ullpos *)
+let the_cfg = ref { c_uflow = false; c_oflow = false; c_zero = false; c_ullpos = false }
+let set_cfg (s : string) =
+  if String.length s = 4 then
+    the_cfg := { c_uflow = s.[0] = '1'; c_oflow = s.[1] = '1'; c_zero = s.[2] = '1'; c_ullpos = s.[3] = '1' }
+let f_small (d : float) = d > -1.0 && d < 1.0
+let tok2num ped st w tok = toktonum fval ferange f_of_z 0.0 (fun d -> d = 0.0) (fun d -> d < 0.0) (trunc_for w) f_small !the_cfg ped (nat_of_int st) w tok
+let scalar_of ped st w tok = set_scalar fval ferange f_of_z 0.0 (fun d -> d = 0.0) (fun d -> d < 0.0) (trunc_for w) f_small !the_cfg ped (nat_of_int st) w tok
 
 let show_num (tag : string) (r : float numres) : string =
   match r with
@@ -215,6 +226,7 @@ let () =
     done with End_of_file -> ());
     if !hashing && !i > 0 then flush_block (((!i - 1) / block) * block)
   end else if Array.length a >= 2 && a.(1) = "num" then begin
+    if Array.length a >= 3 then set_cfg a.(2);
     (* "<standards> <pedantic> <hex>" -> the four _GD_TokToNum results (format of harness/C08/lit.c;
        a value that is undefined behaviour in C is printed as UB) \t NUM|FIELD (spec_is_number) *)
     (try while true do
@@ -228,12 +240,25 @@ let () =
              let r = tok2num ped st w tok in
              let s = show_num tag r in
              if !ub_marker then tag ^ "UB" else s in
-           Printf.printf "%s %s %s %s\t%s\n" (one "C" WComplex) (one "F" WFloat) (one "U" WUnsigned) (one "I" WSigned)
-             (if spec_is_number tok then "NUM" else "FIELD")
+           (* ER: strtod reports ERANGE on a well-formed part; NEG: the real part is an integer
+              literal in [-(2^64-1), -2^63-1]; EMPTY: a part is empty (text silent) *)
+           let semi = ntab.(59) in
+           let (ra, rb) = split_first (fun c -> c = semi) tok in
+           let er l = g_float l && ferange l in
+           let base = lit_base ped (nat_of_int st) in
+           let neg = (match spec_int_value base ra with
+             | Some (Zneg q) -> pos_bits q <= 64 && (pos_bits q = 64 && Zneg q <> Zneg (pos_of_i64 Int64.min_int))
+             | _ -> false) in
+           let flags = (if er ra || (match rb with Some b -> er b | None -> false) then "ER" else "") ^
+                       (if neg then "NEG" else "") ^
+                       (if ra = [] || rb = Some [] then "EMPTY" else "") in
+           Printf.printf "%s %s %s %s\t%s\t%s\n" (one "C" WComplex) (one "F" WFloat) (one "U" WUnsigned) (one "I" WSigned)
+             (if spec_is_number tok then "NUM" else "FIELD") (if flags = "" then "-" else flags)
        | _ -> print_endline "BAD")
     done with End_of_file -> ());
     exit 0
   end else if Array.length a >= 2 && a.(1) = "scalar" then begin
+    if Array.length a >= 3 then set_cfg a.(2);
     (* "<standards> <P|Q> <hex>" -> the five uses of harness/C08/lit.c scalar mode *)
     (try while true do
       let line = String.trim (input_line stdin) in
@@ -241,7 +266,9 @@ let () =
        | [st; mode; hx] ->
            let tok = List.map (fun c -> ntab.(c)) (unhex hx) in
            let st = int_of_string st and ped = (mode = "P") in
-           let fld code ix = Printf.sprintf " E0.0 S%s[%s]" (String.concat "" (List.map (fun b -> Printf.sprintf "%02x" (int_of_n b)) code)) (z_sdec ix) in
+           (* _GD_InputCode -> _GD_BuildCode: a leading dot means "relative to the root namespace" and is
+              dropped (no namespace or affixes in the harness dirfile); namespaces belong to C09 *)
+           let fld code ix = let code = (match code with c :: r when int_of_n c = 46 -> r | _ -> code) in Printf.sprintf " E0.0 S%s[%s]" (String.concat "" (List.map (fun b -> Printf.sprintf "%02x" (int_of_n b)) code)) (z_sdec ix) in
            let use w (lit : float numres -> string) =
              ub_marker := false;
              let r = scalar_of ped st w tok in
@@ -259,6 +286,83 @@ let () =
            let lin = use WComplex (function NumC (re, im) -> Printf.sprintf " E0.0 L%Lx:%Lx:%d" (bits re) (bits im) (if im <> 0.0 then 1 else 0) | _ -> " ?") in
            let win = use WFloat (function NumF re -> Printf.sprintf " E0.0 L%Lx" (bits re) | _ -> " ?") in
            Printf.printf "%s%s%s%s%s\t%s\n" raw ph bit lin win (if spec_is_number tok then "NUM" else "FIELD")
+       | _ -> print_endline "BAD")
+    done with End_of_file -> ());
+    exit 0
+  end else if Array.length a >= 2 && a.(1) = "line" then begin
+    (* "<P|Q> <version> <line-hex>": the line is tokenised by the model tokeniser and given to
+       LineSpec.spec_line, once with the gate table translated from the parser and once with the
+       HISTORY table.  Prints "<code-table result>\t<HISTORY-table result>", each either E<suberror>
+       or the canonical entry dump of harness/C08/spec.c, or UB *)
+    if Array.length a >= 3 then set_cfg a.(2);
+    let hx l = if l = [] then "-" else String.concat "" (List.map (fun b -> Printf.sprintf "%02x" (int_of_n b)) l) in
+    (try while true do
+      let line = String.trim (input_line stdin) in
+      (match String.split_on_char ' ' line with
+       | [mode; st; hxs] ->
+           let ped = (mode = "P") and st = int_of_string st in
+           let txt = List.map (fun c -> ntab.(c)) (unhex hxs) in
+           let toks = (match tok_line true (not ped || st >= 6) txt with TOk l -> l | TErr _ -> []) in
+           let show tbl =
+             ub_marker := false;
+             let r = spec_line fval ferange f_of_z 0.0 (fun d -> d = 0.0) (fun d -> d < 0.0) f_trunc f_trunc_i f_small !the_cfg
+                       tbl ped (nat_of_int st) toks in
+             let code c = (match c with c0 :: r when int_of_n c0 = 46 -> r | _ -> c) in
+             let fld c ix = Printf.sprintf "S%s[%s]" (hx (code c)) (z_sdec ix) in
+             let sx32 (v : z) : int64 = let x = Int64.logand (i64_of_z v) 0xFFFFFFFFL in if Int64.logand x 0x80000000L <> 0L then Int64.sub x 0x100000000L else x in
+             let p_int32 s = (match s with SField (c, ix) -> fld c ix | SLiteral (NumI i) -> Printf.sprintf "L%Ld" (sx32 i) | SLiteral (NumU u) -> Printf.sprintf "L%Ld" (sx32 u) | _ -> "?") in
+             let p_i64 s = (match s with SField (c, ix) -> fld c ix | SLiteral (NumI i) -> "L" ^ z_sdec i | _ -> "?") in
+             let p_u64 s = (match s with SField (c, ix) -> fld c ix | SLiteral (NumU u) -> "L" ^ z_udec u | _ -> "?") in
+             let p_u32 s = (match s with SField (c, ix) -> fld c ix | SLiteral (NumU u) -> Printf.sprintf "L%Lu" (Int64.logand (i64_of_z u) 0xFFFFFFFFL) | _ -> "?") in
+             let p_f s = (match s with SField (c, ix) -> fld c ix | SLiteral (NumF d) -> Printf.sprintf "L%Lx" (bits d) | _ -> "?") in
+             let p_c s = (match s with SField (c, ix) -> fld c ix | SLiteral (NumC (re, im)) -> Printf.sprintf "L%Lx:%Lx" (bits re) (bits im) | _ -> "?") in
+             let cat f l = String.concat "," (List.map f l) in
+             let s = (match r with
+               | LErr e -> Printf.sprintf "E%d" (int_of_nat e)
+               | LOk (E_RAW (ty, spf)) -> Printf.sprintf "RAW:%x:%s" (int_of_n ty) (p_u32 spf)
+               | LOk (E_LINCOM (n, ins, m, b)) -> Printf.sprintf "LINCOM:%d:%s:%s:%s" (int_of_nat n) (cat (fun c -> hx (code c)) ins) (cat p_c m) (cat p_c b)
+               | LOk (E_LINTERP (i, tb)) -> Printf.sprintf "LINTERP:%s:%s" (hx (code i)) (hx tb)
+               | LOk (E_BIT (sg, i, bn, nb)) -> Printf.sprintf "%s:%s:%s:%s" (if sg then "SBIT" else "BIT") (hx (code i)) (p_int32 bn) (p_int32 nb)
+               | LOk (E_YOKE (k, i1, i2)) -> Printf.sprintf "%s:%s,%s" (match int_of_nat k with 0 -> "MULTIPLY" | 1 -> "DIVIDE" | 2 -> "INDIR" | _ -> "SINDIR") (hx (code i1)) (hx (code i2))
+               | LOk (E_PHASE (i, sh)) -> Printf.sprintf "PHASE:%s:%s" (hx (code i)) (p_i64 sh)
+               | LOk (E_POLYNOM (o, i, a)) -> Printf.sprintf "POLYNOM:%d:%s:%s" (int_of_nat o) (hx (code i)) (cat p_c a)
+               | LOk (E_RECIP (i, d)) -> Printf.sprintf "RECIP:%s:%s" (hx (code i)) (p_c d)
+               | LOk (E_MPLEX (i1, i2, c, p)) -> Printf.sprintf "MPLEX:%s,%s:%s:%s" (hx (code i1)) (hx (code i2)) (p_int32 c) (p_int32 p)
+               | LOk (E_WINDOW (i1, i2, op, th)) ->
+                   let o = int_of_nat op in
+                   Printf.sprintf "WINDOW:%s,%s:%d:%s" (hx (code i1)) (hx (code i2)) o
+                     (if o = 1 || o = 6 then p_i64 th else if o = 7 || o = 8 then p_u64 th else p_f th)
+               | LOk (E_CONST ty) -> Printf.sprintf "CONST:%x" (int_of_n ty)
+               | LOk (E_CARRAY (ty, len)) -> Printf.sprintf "CARRAY:%x:%d" (int_of_n ty) (int_of_nat len)
+               | LOk (E_STRING v) -> "STRING:" ^ hx v
+               | LOk (E_SARRAY vs) -> "SARRAY:" ^ cat hx vs) in
+             if !ub_marker then "UB" else s in
+           let code_tbl g = (match code_gate g with Some v -> v | None -> O) in
+           Printf.printf "%s\t%s\n" (show code_tbl) (show spec_gate)
+       | _ -> print_endline "BAD")
+    done with End_of_file -> ());
+    exit 0
+  end else if Array.length a >= 2 && a.(1) = "callback" then begin
+    (* "<answers> <verdicts>": answers = letters I C A R X per callback call (last repeated);
+       verdicts = comma separated, per line "-" (accepted) or the GD_E_FORMAT suberror.
+       prints "C<n> <sub>@<line>... E<error> S<sub> L<line>" (format of harness/C08/spec.c) *)
+    (try while true do
+      let line = String.trim (input_line stdin) in
+      (match String.split_on_char ' ' line with
+       | [ans; vs] ->
+           let n = String.length ans in
+           let cb (k : nat) : answer =
+             let k = int_of_nat k in
+             (match ans.[if k < n then k else n - 1] with
+              | 'I' -> IGNORE | 'C' -> CONTINUE | 'A' -> ABORT | 'R' -> RESCAN | _ -> OTHER (nat_of_int 77)) in
+           let ls = List.map (fun v -> if v = "-" then [None] else [Some (nat_of_int (int_of_string v)); None])
+                      (String.split_on_char ',' vs) in
+           let (recs, err) = fragment_run cb ls in
+           let rs = String.concat "" (List.map (fun (s, l) -> Printf.sprintf " %d@%d" (int_of_nat s) (int_of_nat l)) recs) in
+           (match err with
+            | None -> Printf.printf "C%d%s E0 S0 L0\n" (List.length recs) rs
+            | Some (Inl (s, l)) -> Printf.printf "C%d%s E-1 S%d L%d\n" (List.length recs) rs (int_of_nat s) (int_of_nat l)
+            | Some (Inr _) -> Printf.printf "C%d%s E-25 S0 L0\n" (List.length recs) rs)
        | _ -> print_endline "BAD")
     done with End_of_file -> ());
     exit 0
